@@ -180,6 +180,7 @@ def run(ck: Check):
     # ---------------- a large batch (processing in pieces must not lose or corrupt rows)
     protocols.large_batch_rows(ck, train=True)
     protocols.dtype_variants(ck, train=True)
+    protocols.empty_batch(ck, train=True)
     # ---------------- the Coq model itself: interval lemmas
     failed = coqio.interval_goals(ck, "c08itv", [(g[0], g[1], g[2], g[3]) for g in goals])
     ck.count("interval_lemmas", len(goals))
